@@ -12,6 +12,7 @@ import (
 
 	"github.com/hashicorp/raft"
 	"github.com/rqlite/rqlite/v10/internal/fsutil"
+	"github.com/rqlite/rqlite/v10/internal/vhook"
 	"github.com/rqlite/rqlite/v10/snapshot/proto"
 	pb "google.golang.org/protobuf/proto"
 )
@@ -211,6 +212,10 @@ func (s *Sink) Close() (retErr error) {
 		}
 	}()
 
+	if err := vhook.Err("sink.close.begin"); err != nil {
+		return err
+	}
+	vhook.Point("sink.close.begin")
 	if s.localWALDir != "" {
 		// IncrementalFileSnapshot: atomically move the WAL directory into the
 		// snapshot directory, then redistribute the WAL files.
@@ -218,22 +223,30 @@ func (s *Sink) Close() (retErr error) {
 		if err := os.Rename(s.localWALDir, movedDir); err != nil {
 			return fmt.Errorf("failed to move WAL directory into snapshot directory: %v", err)
 		}
+		vhook.Point("sink.close.after_waldir_rename")
 		sd := NewStagingDir(movedDir)
 		if err := sd.MoveWALFilesTo(s.snapTmpDirPath); err != nil {
 			return fmt.Errorf("failed to move WAL files into snapshot directory: %v", err)
 		}
+		vhook.Point("sink.close.after_move_wals")
 		if err := os.Remove(movedDir); err != nil {
 			return fmt.Errorf("failed to remove temporary WAL directory: %v", err)
 		}
+		vhook.Point("sink.close.after_remove_incoming")
 	} else {
 		if err := s.sinkW.Close(); err != nil {
 			return fmt.Errorf("failed to close sink: %v", err)
 		}
+		vhook.Point("sink.close.after_sinkw_close")
+	}
+	if err := vhook.Err("sink.close.mid"); err != nil {
+		return err
 	}
 
 	if err := writeMeta(s.snapTmpDirPath, s.meta); err != nil {
 		return fmt.Errorf("failed to write meta: %v", err)
 	}
+	vhook.Point("sink.close.after_write_meta")
 
 	if err := fsutil.SyncDirMaybe(s.snapTmpDirPath); err != nil {
 		return err
@@ -241,12 +254,14 @@ func (s *Sink) Close() (retErr error) {
 	if err := os.Rename(s.snapTmpDirPath, s.snapDirPath); err != nil {
 		return fmt.Errorf("failed to rename snapshot directory: %v", err)
 	}
+	vhook.Point("sink.close.after_final_rename")
 
 	if s.stc != nil {
 		if err := s.stc.SetDueNext(Incremental); err != nil {
 			return fmt.Errorf("failed to set due next to incremental: %v", err)
 		}
 	}
+	vhook.Point("sink.close.after_set_due_next")
 	if err := fsutil.SyncDirMaybe(s.dir); err != nil {
 		return err
 	}
